@@ -73,6 +73,7 @@ Definition s_Inner : ustring := ulit "Inner".
 Definition s_Item : ustring := ulit "Item".
 Definition s_item : ustring := ulit "item".
 Definition s_Value : ustring := ulit "Value".
+Definition s_Variant : ustring := ulit "Variant".
 Definition s_i64 : ustring := ulit "i64".
 Definition s_f64 : ustring := ulit "f64".
 Definition s_map_type : ustring := ulit ":: std :: collections :: HashMap".
@@ -512,6 +513,28 @@ Definition one_internal (L : list (list (ustring * schema) * list ustring * bool
                               end) (map fst (tb_cmap t0)))
   end.
 
+(* ---- untagged: the arms are plain scalar types `{"type": T}` (nothing else), T in boolean / string / integer /
+   number / null.  maybe_option (enums.rs:27-67) comes first in convert_one_of: with exactly one non-null arm the
+   union is an Option (not modelled here: classified out), so at least two non-null arms are wanted;
+   maybe_singleton_subschema needs one arm.  None of the tagged forms matches such arms. *)
+Definition scalar_arm (b : schema) : option itype :=
+  match b with
+  | SObj (Some [t]) fmt None None nv sv ItemsAbsent [] None None None false [] [] None None None None None None None None None None =>
+      match t with
+      | TBoolean | TString | TNumber | TNull =>
+          if is_none fmt && numv_is_none nv && strv_is_none sv then Some t else None
+      | TInteger => if strv_is_none sv then Some t else None
+      | _ => None
+      end
+  | _ => None
+  end.
+
+Definition one_untagged (bs : list schema) : bool :=
+  match opt_all_map scalar_arm bs with
+  | Some tys => (2 <=? length (filter (fun t => negb (itype_eqb t TNull)) tys))%nat
+  | None => false
+  end.
+
 (* enums.rs via convert.rs:1579-1611: external, then adjacent, then internal *)
 Definition one_kind (bs : list schema) : option tagty :=
   if one_external bs then Some TagExternal else
@@ -519,7 +542,7 @@ Definition one_kind (bs : list schema) : option tagty :=
   | [] => None
   | _ =>
       match tobjs bs with
-      | None => None
+      | None => if one_untagged bs then Some TagUntagged else None
       | Some L =>
           if ext_on_tobjs L then None        (* externally tagged in a form the model does not take *)
           else match one_adjacent L with
@@ -914,6 +937,25 @@ Section Convert.
             end
         end.
 
+    (* enums.rs:610-714 untagged_enum on arms without a name of their own: `Variant<i>`, the arm converted under
+       Name::Suggested(enum name).append(variant) and turned into the variant's data as for external tagging *)
+    Definition conv_ubranches (n : ustring)
+      : nat -> list schema -> st -> option (list (ustring * vdetails) * bool * st) :=
+      fix go (i : nat) (bs : list schema) (s : st) {struct bs} : option (list (ustring * vdetails) * bool * st) :=
+        match bs with
+        | [] => Some ([], false, s)
+        | b :: r =>
+            let v := s_Variant ++ ulit (show_N (N.of_nat i)) in
+            match conv_xvar (NSuggested n) v b s with
+            | None => None
+            | Some (vd, d1, s1) =>
+                match go (S i) r s1 with
+                | None => None
+                | Some (vs2, d2, s2) => Some ((v, vd) :: vs2, d1 || d2, s2)
+                end
+            end
+        end.
+
     (* enums.rs:207-245: the variants in branch order; deny_unknown_fields |= deny *)
     Definition conv_xbranches (nm : name) : list schema -> st -> option (list (ustring * vdetails) * bool * st) :=
       fix go (bs : list schema) (s : st) {struct bs} : option (list (ustring * vdetails) * bool * st) :=
@@ -951,8 +993,16 @@ Section Convert.
           Some (DEnum n None tg
                       (map (fun p => mkVariant (fst (fst p)) (snd p) (snd (fst p))) (combine rvs ids))
                       deny
-                      (if forallb (fun p => match snd p with VSimple => true | _ => false end) rvs
-                       then [AllSimpleVariants] else []))
+                      (match tg with
+                       | TagUntagged =>
+                           (* finalize: every variant a newtype variant whose type has FromStr / Display - on the
+                              scalar arms of the model every type has both *)
+                           if forallb (fun p => match snd p with VItem _ => true | _ => false end) rvs
+                           then [UntaggedFromStr; UntaggedDisplay] else []
+                       | _ =>
+                           if forallb (fun p => match snd p with VSimple => true | _ => false end) rvs
+                           then [AllSimpleVariants] else []
+                       end))
       | _ => None
       end.
 
@@ -996,7 +1046,18 @@ Section Convert.
                   match mk_tagged n (TagInternal tg) rvs deny with Some d => Some (d, s1) | None => None end
               end
           end
-      | KOne TagUntagged => None
+      | KOne TagUntagged =>
+          match type_name nm with
+          | None => None
+          | Some n =>
+              match match oneo with Some bs => conv_ubranches n 0%nat bs s | None => None end with
+              | None => None
+              | Some (rvs, deny, s1) =>
+                  (* enums.rs:688-701: at most one variant without data *)
+                  if (2 <=? length (filter (fun p => match snd p with VSimple => true | _ => false end) rvs))%nat then None
+                  else match mk_tagged n TagUntagged rvs deny with Some d => Some (d, s1) | None => None end
+              end
+          end
       | KBool => Some (DBoolean, s)
       | KStr => Some (DString, s)
       | KNull => Some (DUnit, s)
@@ -1233,7 +1294,20 @@ Fixpoint keys_sorted_b (l : list ustring) : bool :=
 
 (* the taggings the theorems of Props/C0xF.v cover so far (the model and K3 cover all of them: frag_w) *)
 Definition proved_tag (tg : tagty) : bool :=
-  match tg with TagUntagged => false | _ => true end.
+  match tg with _ => true end.
+
+Fixpoint variant_n_names (i : nat) (l : list schema) {struct l} : list ustring :=
+  match l with
+  | [] => []
+  | _ :: r => (s_Variant ++ ulit (show_N (N.of_nat i))) :: variant_n_names (S i) r
+  end.
+
+(* an arm of an untagged oneOf of the fragment: a plain, non-null scalar *)
+Definition scalar_kind (b : schema) : bool :=
+  match classify_s b with
+  | Some (false, KBool) | Some (false, KStr) | Some (false, KNum) | Some (false, KInt _) => true
+  | _ => false
+  end.
 
 (* the raw variant names, in branch order *)
 Definition variant_names (tg : tagty) (bs : list schema) : option (list ustring) :=
@@ -1241,7 +1315,7 @@ Definition variant_names (tg : tagty) (bs : list schema) : option (list ustring)
   | TagExternal => xall_names bs
   | TagAdjacent t _ | TagInternal t =>
       opt_all_map (fun b => match assoc t (sch_props b) with Some ts => cstr ts | None => None end) bs
-  | TagUntagged => None
+  | TagUntagged => Some (variant_n_names 0%nat bs)
   end.
 
 (* the tag schema in the form the validators read: {"type":"string","enum":[x]} and nothing else *)
@@ -1302,7 +1376,18 @@ Definition branches_ok (cls : Heck.CharClasses) (tg : tagty) (bs : list schema) 
          | b0 :: r => forallb (fun b => Bool.eqb (match sch_additional_props b0 with Some (SBool false) => true | _ => false end)
                                                  (match sch_additional_props b with Some (SBool false) => true | _ => false end)) r
          end
-  | TagUntagged => false
+  | TagUntagged =>
+      (* scalar arms of pairwise different JSON types, none of them null (Check/Exact.v reads a null branch
+         as a nullable union); integer next to number is left out too (an integer is valid for both) *)
+      match opt_all_map scalar_arm bs with
+      | Some tys =>
+          negb (existsb (itype_eqb TNull) tys)
+          && (fix nd (l : list itype) : bool :=
+                match l with [] => true | x :: r => negb (existsb (itype_eqb x) r) && nd r end) tys
+          && negb (existsb (itype_eqb TInteger) tys && existsb (itype_eqb TNumber) tys)
+          && forallb scalar_kind bs
+      | None => false
+      end
   end.
 
 Section Frag.
